@@ -52,7 +52,7 @@ def run(prop, tier, seed, repo):
                              "kinds": [g["kind"] for g in c["games"]], "file": c["file"],
                              "tgs": [g["tg"] for g in c["games"]], "style": i % 2})
         jobs = [{"kind": "batch", "names": s["names"], "tgs": s["tgs"], "file": s["file"], "style": s["style"],
-                 "budget": 120.0} for s in sessions]
+                 "dotslash": s["tid"] % 3 == 0, "budget": 120.0} for s in sessions]
         t1 = time.time()
         results = pool.run_jobs(jobs, repo, budget=120.0)
         for s, (events, status) in zip(sessions, results):
